@@ -29,7 +29,7 @@ SPECS = {
     "SparseLinearModel": [{"alpha": 0.3}, {"alpha": 0.3, "dynamic": True, "batch_size": 2}, {"alpha": 0.3, "batch_size": 2, "_mlcl": True}], "SparseLinearMMD": [{"alpha": 0.3, "groups": [[0, 1]]}, {"alpha": 0.3, "groups": [[1]]}],
     "SparseLinearMI": [{"alpha": 0.3}, {"alpha": 0.0}], "SparseMLPModel": [{"alpha": 0.3}], "SparseMLPMMD": [{"alpha": 0.3, "batch_size": 3}],
     "CategoricalModel": [{}], "CategoricalMMD": [{"kernel": "rbf"}], "CategoricalWasserstein": [{}],
-    "Kauri": [{}, {"max_features": 1, "max_clusters": 4}, {"max_clusters": 6, "max_leaves": 9}], "Douglas": [{}, {"n_cuts": 2, "batch_size": 2}],
+    "Kauri": [{}, {"max_features": 1, "max_clusters": 4}, {"max_clusters": 6, "max_leaves": 9}, {"kernel": "pre_psd"}], "Douglas": [{}, {"n_cuts": 2, "batch_size": 2}],
 }
 SET_EVENTS = {
     "gradient": [("max_iter", 2), ("learning_rate", 0.05), ("n_clusters", 2), ("solver", "sgd")],
@@ -123,6 +123,10 @@ def _apply(m, ev, D):
                 m.fit(D["X2"], D["y2"])
             elif kind == "fit3":
                 m.fit(D["X3"], D["y3"])
+            elif kind == "fit1_noy":          # precomputed configuration called without its matrix: refused, or the documented fallback
+                m.fit(D["X1"])
+            elif kind == "score1_noy":
+                m.score(D["X1"])
             elif kind == "fit_predict1":
                 m.fit_predict(D["X1"], D["y1"])
             elif kind == "predict1":
@@ -167,6 +171,8 @@ def history_search(case):
     D = {"X1": X1, "X2": X2, "X3": X3, "y1": y1, "y2": y2, "y3": y3}
     pristine = {k: (None if v is None else v.copy()) for k, v in D.items()}
     events = [("fit1",), ("fit2",), ("fit3",), ("fit_predict1",), ("predict1",), ("score1",)]
+    if y1 is not None:
+        events += [("fit1_noy",), ("score1_noy",)]
     if not decorated:
         events.append(("clone",))        # clone() returns an undecorated estimator by construction
     if name != "Kauri":
